@@ -203,17 +203,21 @@ pub fn candles(rng: &mut Rng, len: usize, class: &str) -> Vec<Candle> {
 pub fn candles_burst_flat(rng: &mut Rng, len: usize) -> Vec<Candle> {
 	type V = yata::core::ValueType;
 	let m = 6 + rng.below(40) as usize;
-	let mut p = (5.0 + 95.0 * rng.unit() * 100.0).round() / 100.0;
+	// price level 0.05 .. 95 on a 0.01 grid, or 100 .. 400 on a 0.1 grid
+	let coarse = rng.chance(1, 2);
+	let grid = if coarse { 10.0 } else { 100.0 };
+	let mut p = if coarse { (100.0 + 300.0 * rng.unit()) } else { 5.0 + 95.0 * rng.unit() * 100.0 / 100.0 };
+	p = (p * grid).round() / grid;
 	// absolute tick-sized steps, or relative ones of about a tenth of the price (values then change binade often, which is
 	// what gives the residues of two running sums opposite signs)
 	let step = if rng.chance(1, 2) { *rng.pick(&[0.05, 0.5, 2.5]) } else { 0.12 * p };
 	let mut out = Vec::with_capacity(len);
 	for i in 0..len {
 		if i < m {
-			let q = ((p + step * rng.gauss()).max(0.5) * 100.0).round() / 100.0;
+			let q = ((p + step * rng.gauss()).max(0.5) * grid).round() / grid;
 			let (hi, lo) = (p.max(q), p.min(q));
-			let high = ((hi + step * 0.3 * rng.unit()) * 100.0).round() / 100.0;
-			let low = (((lo - step * 0.3 * rng.unit()).max(0.25)) * 100.0).round() / 100.0;
+			let high = ((hi + step * 0.3 * rng.unit()) * grid).round() / grid;
+			let low = (((lo - step * 0.3 * rng.unit()).max(0.25)) * grid).round() / grid;
 			let volume = (1.0 + rng.below(2000) as f64) * if rng.chance(1, 8) { 0.0 } else { 1.0 };
 			out.push(Candle { open: p as V, high: high.max(hi) as V, low: low.min(lo) as V, close: q as V, volume: volume as V });
 			p = q;
